@@ -169,6 +169,22 @@ def run(tier, seed, replay=None):
         err = float((x.full().to(torch.float64) - ref).norm() / ref.norm())
         if err > 100 * eps + 1e-9: V.fail("dmrg_cross: accuracy [function values %s]" % kd, dict(desc, rel_err=err, ranks=[int(r) for r in x.R]))
         dist["function values " + kd] = dist.get("function values " + kd, 0) + 1
+    # ---- the documented sweep budget: nswp = 1 and 2 (one sweep over exact-rank / separable data already recovers it)
+    rng_s = random.Random(seed + 31)
+    for j in range(6 if tier == "quick" else 60):
+        N, f0, kind = targets(rng_s, torch)
+        if kind == "smooth": continue
+        nsw = [1, 2, 1][j % 3]; eps = rng_s.choice([1e-8, 1e-6])
+        sd = rng_s.randrange(1 << 30); torch.manual_seed(sd)
+        desc = {"routine": "dmrg_cross", "N": N, "target": kind, "eps": eps, "torch_seed": sd, "nswp": nsw}
+        try:
+            x = ip.dmrg_cross(f0, N, eps=eps, nswp=nsw)
+        except Exception as ex:
+            V.fail("dmrg_cross raises %s [nswp=%d]" % (type(ex).__name__, nsw), dict(desc, exc=str(ex)[:200])); continue
+        ref = f0(torch.tensor(list(itertools.product(*[range(n_) for n_ in N])), dtype=torch.int64)).reshape(N)
+        err = float((x.full() - ref).norm() / ref.norm()) if list(x.N) == N else float("inf")
+        if err > 100 * eps + 1e-9: V.fail("dmrg_cross: accuracy with a sweep budget of %d" % nsw, dict(desc, rel_err=err, ranks=[int(r) for r in x.R]))
+        dist["nswp=%d" % nsw] = dist.get("nswp=%d" % nsw, 0) + 1
     # ---- function_interpolate: values handed to the function are entries of the argument tensors
     for i in range(n // 2):
         d = rng.choice([2, 3, 4])
@@ -176,9 +192,12 @@ def run(tier, seed, replay=None):
         nargs = rng.choice([1, 1, 2])
         xs = [torchtt.randn(N, [1] + [rng.randint(1, 3)] * (d - 1) + [1], dtype=torch.float64) for _ in range(nargs)]
         xs = [t / t.norm() * 3.0 + 2.0 * torchtt.ones(N, dtype=torch.float64) for t in xs]
-        eps = rng.choice([1e-8, 1e-6, 1e-4])
+        eps = rng.choice([1e-8, 1e-6, 1e-4, 1e-3])
+        sub = rng.random() < 0.4
+        if sub:                               # a component of the arguments below eps: still part of the entries the function is to be called with
+            xs = [t + (0.1 * eps) * (lambda u: u / u.norm() * 3.0)(torchtt.randn(N, [1] + [2] * (d - 1) + [1], dtype=torch.float64)) for t in xs]
         sd = rng.randrange(1 << 30); torch.manual_seed(sd)
-        desc = {"routine": "function_interpolate", "N": N, "arguments": nargs, "eps": eps, "torch_seed": sd}
+        desc = {"routine": "function_interpolate", "N": N, "arguments": nargs, "eps": eps, "torch_seed": sd, "sub_eps_component": sub}
         dist["function_interpolate:%d" % nargs] = dist.get("function_interpolate:%d" % nargs, 0) + 1
         fulls = [t.full() for t in xs]
         table = torch.stack([f_.reshape(-1) for f_ in fulls], 1)            # all rows (x_1[idx], .., x_m[idx])
